@@ -1,3 +1,5 @@
+import SccacheModel.Gen.KeyConsts
+
 namespace CK
 
 /-! Sketch (design round): pre-image of `c::hash_key` and `preprocessor_cache_entry_hash_key`. -/
@@ -10,38 +12,8 @@ def le64 (n : Nat) : Bytes := (List.range 8).map fun i => UInt8.ofNat ((n / 256 
 /-- what `OsStr::hash` feeds to `HashToDigest` : `write_length_prefix` (usize, native endian) then the bytes -/
 def encArg (a : Bytes) : Bytes := le64 a.length ++ a
 
-inductive Lang where
-  | c | cxx | genericHeader | cHeader | cxxHeader | objc | objcxx | objcxxHeader
-  | cuda | cudaFE | ptx | cubin | rust | hip
-deriving Repr, DecidableEq
-
-/-- GENERATED from `Language::as_str` in the real project (hand-copied in this sketch) -/
-def langTag : Lang → String
-  | .c => "c" | .cHeader => "cHeader" | .cxx => "c++" | .cxxHeader => "c++Header"
-  | .genericHeader => "c/c++" | .objc => "objc" | .objcxx => "objc++" | .objcxxHeader => "objc++"
-  | .cuda => "cuda" | .cudaFE => "cuda" | .ptx => "ptx" | .cubin => "cubin" | .rust => "rust" | .hip => "hip"
-
-/-- the tags as byte lists (what the translator emits; string literals do not reduce in the kernel) -/
-def langTagBytes : Lang → Bytes
-  | .c => [99]   -- c
-  | .cHeader => [99, 72, 101, 97, 100, 101, 114]   -- cHeader
-  | .cxx => [99, 43, 43]   -- c++
-  | .cxxHeader => [99, 43, 43, 72, 101, 97, 100, 101, 114]   -- c++Header
-  | .genericHeader => [99, 47, 99, 43, 43]   -- c/c++
-  | .objc => [111, 98, 106, 99]   -- objc
-  | .objcxx => [111, 98, 106, 99, 43, 43]   -- objc++
-  | .objcxxHeader => [111, 98, 106, 99, 43, 43]   -- objc++
-  | .cuda => [99, 117, 100, 97]   -- cuda
-  | .cudaFE => [99, 117, 100, 97]   -- cuda
-  | .ptx => [112, 116, 120]   -- ptx
-  | .cubin => [99, 117, 98, 105, 110]   -- cubin
-  | .rust => [114, 117, 115, 116]   -- rust
-  | .hip => [104, 105, 112]   -- hip
-
-def cCacheVersion : Bytes := [49, 49]
-def cCachedEnv : List Bytes := ["SCCACHE_C_CUSTOM_CACHE_BUSTER", "MACOSX_DEPLOYMENT_TARGET",
-  "IPHONEOS_DEPLOYMENT_TARGET", "TVOS_DEPLOYMENT_TARGET", "WATCHOS_DEPLOYMENT_TARGET", "SDKROOT",
-  "CCC_OVERRIDE_OPTIONS"].map sb
+-- `Lang`, `langTagBytes`, `cCacheVersion`, `cCachedEnv`, `ppFormatVersion`, `ppCachedEnv` are GENERATED from the Rust
+-- sources on every run (Gen/KeyConsts.lean); the theorems below are therefore re-checked against what the code says now.
 
 structure CReq where
   digest : Bytes
@@ -55,9 +27,36 @@ structure CReq where
 def encEnv (allow : List Bytes) (env : List (Bytes × Bytes)) : Bytes :=
   (env.filter fun kv => allow.contains kv.1).flatMap fun kv => encArg kv.1 ++ [61] ++ encArg kv.2
 
-def encHash (r : CReq) : Bytes :=
-  r.digest ++ [if r.plusplus then 1 else 0] ++ cCacheVersion ++ langTagBytes r.lang
-    ++ r.args.flatMap encArg ++ r.extra.flatten ++ encEnv cCachedEnv r.env ++ r.pp
+/-- the common layout of both keys: `ver` is the version constant, `allow` the allow-listed variable names -/
+def encGen (ver : Bytes) (allow : List Bytes) (r : CReq) : Bytes :=
+  r.digest ++ [if r.plusplus then 1 else 0] ++ ver ++ langTagBytes r.lang
+    ++ r.args.flatMap encArg ++ r.extra.flatten ++ encEnv allow r.env ++ r.pp
+
+/-- pre-image of `c::hash_key` -/
+def encHash (r : CReq) : Bytes := encGen cCacheVersion cCachedEnv r
+
+/-- request of the preprocessor-level key (`preprocessor_cache_entry_hash_key`): the C request components plus the
+    input path bytes, the hex digest of the input file, and whether the input holds `__TIME__` -/
+structure PReq where
+  digest : Bytes
+  plusplus : Bool
+  lang : Lang
+  args : List Bytes
+  extra : List Bytes
+  env : List (Bytes × Bytes)
+  path : Bytes
+  inputDigest : Bytes
+  hasTime : Bool
+
+/-- the payload of the preprocessor-level key is the raw input path followed by the input's hex digest -/
+def PReq.toC (r : PReq) : CReq :=
+  { digest := r.digest, plusplus := r.plusplus, lang := r.lang, args := r.args, extra := r.extra, env := r.env,
+    pp := r.path ++ r.inputDigest }
+
+/-- pre-image of the preprocessor-level key; `none` = direct mode disabled for this request -/
+def encPre (ignoreTimeMacros : Bool) (r : PReq) : Option Bytes :=
+  if !ignoreTimeMacros && r.hasTime then none else
+  some (encGen [ppFormatVersion] ppCachedEnv r.toC)
 
 def isHexLower (b : UInt8) : Bool := (48 ≤ b && b ≤ 57) || (97 ≤ b && b ≤ 102)
 
@@ -79,7 +78,8 @@ structure WF (r : CReq) : Prop where
   ppNul : (0 : UInt8) ∉ r.pp
   ppHex : startsWith64Hex r.pp = false
 
-def canonEnv (r : CReq) : List (Bytes × Bytes) := r.env.filter fun kv => cCachedEnv.contains kv.1
+def canonEnvG (allow : List Bytes) (r : CReq) : List (Bytes × Bytes) := r.env.filter fun kv => allow.contains kv.1
+def canonEnv (r : CReq) : List (Bytes × Bytes) := canonEnvG cCachedEnv r
 
 /-- C02 main statement (components, given equal tags) -/
 def EncHashComponentsInj : Prop :=
